@@ -45,6 +45,16 @@ def needsNl (cs : List DNode) : Bool :=
   | none => false
   | some k => k != .NEWLINE
 
+/-- the parse of `A` (a key at the end of the input) is `PARAGRAPH(ENTRY(KEY "A", ERROR()))`: the
+    chain of last children ends in the EMPTY ERROR node, so `last_token()` is `None` although the
+    tree has a last leaf, and `terminate_last_line` does nothing — `insert` then fuses the new field
+    with the dangling key, exactly as /repo does (`deb.hist t.x41 ins.0.x42.x63` prints `AB: c\n`) -/
+example : needsNl (parse "A".toList).tree.children = false
+    ∧ (leavesList (parse "A".toList).tree.children).getLast? = some (.KEY, "A".toList)
+    ∧ (match (parse "A".toList).tree.children with
+       | [Node.node .PARAGRAPH cs] => textList (paraInsert cs "B".toList "c".toList)
+       | _ => []) = "AB: c\n".toList := by decide +kernel
+
 theorem terminateLastLine_of_not_needs (cs : List DNode) (h : needsNl cs = false) :
     terminateLastLine cs = cs := by
   unfold needsNl at h
@@ -90,7 +100,7 @@ theorem textList_terminateLastLine (cs : List DNode) :
       have hk' : k ≠ .NEWLINE := by simpa using hn'
       simp only [hk', ↓reduceIte]
       have hne : cs ≠ [] := by
-        intro e; subst e; simp [lastLeafKind] at hk
+        intro e; subst e; simp [lastLeafKind, lastTok_nil] at hk
       split
       · simp
       · exact textList_terminateLast' cs hne
@@ -106,7 +116,7 @@ theorem terminateLastLine_shape (cs : List DNode) :
     have hn' : needsNl cs = true := by simpa using hn
     unfold needsNl at hn'
     have hne : cs ≠ [] := by
-      intro e; subst e; simp [lastLeafKind] at hn'
+      intro e; subst e; simp [lastLeafKind, lastTok_nil] at hn'
     rcases snoc_cases cs with rfl | ⟨init, last, rfl⟩
     · exact absurd rfl hne
     · unfold terminateLastLine
